@@ -475,6 +475,10 @@ func (sc *StorageCar) Finalize() error {
 	}
 
 	if sc.opts.WriteAsCarV1 {
+		// Nothing to write for a CARv1, but the store is done: refuse further use.
+		sc.mu.Lock()
+		defer sc.mu.Unlock()
+		sc.closed = true
 		return nil
 	}
 
